@@ -12,6 +12,11 @@ BASE = "cd /repo && /venv/bin/python -m pytest -ra -q -p no:cacheprovider --time
 
 # id -> (category, technique, text, note, design_ref)
 T = {
+ "C01": ("model_checking",
+         "explicit-state product BFS: real HTMLParser (tokenizer + tree construction, minidom result read by direct traversal) x ref/treebuilder.py, a spec-literal WHATWG tree builder driven by ref/tokenizer.py; state key = suspended implementation state (insertion mode, closed-subtree skeleton of live nodes, stacks, pointers, flags, pending table text, tokenizer snapshot) + the same for the reference; every transition parses word+EOF with both and compares canonical trees; one-step bisimulation check of the abstraction",
+         "Nine themed alphabets of whole-token letters (formatting/adoption agency, tables, select, prologue/head/frameset, foreign content, blocks/lists/implied end tags, text modes, newer elements, union) are explored breadth-first in document mode with scripting off and on and in fragment mode for the HTML context elements, modulo state equivalence, so deep insertion-mode x token x stack-shape combinations are reached with short words.",
+         "ref/treebuilder.py and ref/tokenizer.py (about 2000 lines written from the June-2020 standard) are trusted; <template> is not modelled (witness only); HTML-breakout tags inside foreign content are not explored in fragment mode (fragment-case clause of the 2020 text unsettled); letters outside the alphabets are not covered",
+         "6/C01"),
  "C14": ("exploration",
          "exhaustive enumeration of complete finite domains on the real tokenizer and parser: all 2231 named references (with/without ';') x 13 followers x 6 contexts x 2 routes; every numeric value 0..0x110000 x 6 spellings; reverse direction over code points x output encodings; oracle = 40-line reference decoder over the stdlib table",
          "The named-reference table and the numeric range are finite, so every entry is executed: each name in each context (data, RCDATA, three attribute quotings) followed by each class of next character, through HTMLTokenizer and through parseFragment; every numeric value in decimal/x/X with and without ';'. The reverse clause serializes every code point as text and attribute value with an output encoding and parses it back.",
